@@ -99,3 +99,42 @@ Proof. exact C17_decstr_resets_saved. Qed.
 Check C17_decstr : forall t fsave t1 t2 frest t3, match fsave with Decsc | Scosc | Decset [SaveCursor] => True | _ => False end -> execute t fsave = Ok t1 -> execute t1 Decstr = Ok t2 -> is_restore frest -> execute t2 frest = Ok t3 -> cur_col t3 = 0 /\ cur_row t3 = 0 /\ tpen t3 = default_pen /\ org t3 = false /\ awm t3 = true /\ pend t3 = false.
 Print Assumptions C17_decstr.
 
+From Avt Require Import Oracles.KFClasses Proofs.ModeSem Proofs.Audit2Misc.
+(** Proofs/Audit2Misc.v (second statement audit): the remaining spellings; KF-C17-1 as a class *)
+(** known finding KF-C17-1 with a Coq-defined class (Oracles/KFClasses.v `kf1_C17`: DECSTR while the shown screen has a non-default saved context): inside the class a following restore re-establishes the power-on defaults, NOT the saved context *)
+Theorem C17_known_finding : forall pre f t1 frest t3, kf1_C17 pre f = true -> execute (vterm pre) f = Ok t1 -> is_restore frest -> execute t1 frest = Ok t3 -> f = Decstr /\ sctx (vterm pre) <> default_ctx /\ cur_col t3 = 0 /\ cur_row t3 = 0 /\ tpen t3 = default_pen /\ org t3 = false /\ awm t3 = true /\ pend t3 = false /\ ctx_eqb (mkCtx (cur_col t3) (cur_row t3) (tpen t3) (org t3) (awm t3)) (sctx (vterm pre)) = false.
+Proof. exact C17_kf1_exact. Qed.
+Check C17_known_finding : forall pre f t1 frest t3, kf1_C17 pre f = true -> execute (vterm pre) f = Ok t1 -> is_restore frest -> execute t1 frest = Ok t3 -> f = Decstr /\ sctx (vterm pre) <> default_ctx /\ cur_col t3 = 0 /\ cur_row t3 = 0 /\ tpen t3 = default_pen /\ org t3 = false /\ awm t3 = true /\ pend t3 = false /\ ctx_eqb (mkCtx (cur_col t3) (cur_row t3) (tpen t3) (org t3) (awm t3)) (sctx (vterm pre)) = false.
+Print Assumptions C17_known_finding.
+
+(** the round trip with the state-dependent hypothesis: no save, no RIS and no step IN THE CLASS while the saving screen is shown (a DECSTR that finds a default saved context is harmless) *)
+Theorem C17_round_trip_outside_finding : forall p t fsave t1 os t2 frest t3, TInv t -> is_save fsave -> execute t fsave = Ok t1 -> forallb rop_ok os = true -> rrun os t1 = Ok t2 -> no_save_on (active t) (active t1) os = true -> has_ris os = false -> kf1_free p (active t) os t1 -> active t2 = active t -> is_restore frest -> execute t2 frest = Ok t3 -> let e := run_ctx_clamps (active t) (active t1) (cols t) (rows t) (spec_saved_now t) os in cur_col t3 = sc_col e /\ cur_row t3 = sc_row e /\ tpen t3 = tpen t /\ org t3 = org t /\ awm t3 = awm t /\ pend t3 = false /\ cur_col t3 < cols t3 /\ cur_row t3 < rows t3 /\ cur_col t3 <= viscol t /\ cur_row t3 <= cur_row t /\ (no_resize os = true -> cur_col t3 = viscol t /\ cur_row t3 = cur_row t).
+Proof. exact C17_roundtrip_outside_kf1. Qed.
+Check C17_round_trip_outside_finding : forall p t fsave t1 os t2 frest t3, TInv t -> is_save fsave -> execute t fsave = Ok t1 -> forallb rop_ok os = true -> rrun os t1 = Ok t2 -> no_save_on (active t) (active t1) os = true -> has_ris os = false -> kf1_free p (active t) os t1 -> active t2 = active t -> is_restore frest -> execute t2 frest = Ok t3 -> let e := run_ctx_clamps (active t) (active t1) (cols t) (rows t) (spec_saved_now t) os in cur_col t3 = sc_col e /\ cur_row t3 = sc_row e /\ tpen t3 = tpen t /\ org t3 = org t /\ awm t3 = awm t /\ pend t3 = false /\ cur_col t3 < cols t3 /\ cur_row t3 < rows t3 /\ cur_col t3 <= viscol t /\ cur_row t3 <= cur_row t /\ (no_resize os = true -> cur_col t3 = viscol t /\ cur_row t3 = cur_row t).
+Print Assumptions C17_round_trip_outside_finding.
+
+(** ?1049l as the restore spelling after ANY of the four save spellings *)
+Theorem C17_round_trip_1049l : forall t fsave t1 os t2 t3, TInv t -> active t = Primary -> is_save fsave -> execute t fsave = Ok t1 -> forallb rop_ok os = true -> rrun os t1 = Ok t2 -> no_save_reset_on Primary (active t1) os = true -> execute t2 (Decrst [SaveCursorAltScreenBuffer]) = Ok t3 -> let e := run_ctx Primary (active t1) (cols t) (rows t) (spec_saved_now t) os in active t3 = Primary /\ tpen t3 = tpen t /\ org t3 = org t /\ awm t3 = awm t /\ pend t3 = false /\ cur_col t3 < cols t3 /\ cur_row t3 < rows t3 /\ (exists b, buf_resize (primary_buffer t2) (cols t2) (rows t2) (sc_col e) (sc_row e) = Ok (b, (cur_col t3, cur_row t3)) /\ buf t3 = b) /\ (bcols (primary_buffer t2) = cols t2 -> brows (primary_buffer t2) = rows t2 -> cur_col t3 = sc_col e /\ cur_row t3 = sc_row e) /\ (active t2 = Primary -> cur_col t3 = sc_col e /\ cur_row t3 = sc_row e) /\ sc_col e <= viscol t /\ sc_row e <= cur_row t /\ saved_of t3 Primary = clamp_ctx e (cols t2) (rows t2).
+Proof. exact C17_roundtrip_run_1049l. Qed.
+Check C17_round_trip_1049l : forall t fsave t1 os t2 t3, TInv t -> active t = Primary -> is_save fsave -> execute t fsave = Ok t1 -> forallb rop_ok os = true -> rrun os t1 = Ok t2 -> no_save_reset_on Primary (active t1) os = true -> execute t2 (Decrst [SaveCursorAltScreenBuffer]) = Ok t3 -> let e := run_ctx Primary (active t1) (cols t) (rows t) (spec_saved_now t) os in active t3 = Primary /\ tpen t3 = tpen t /\ org t3 = org t /\ awm t3 = awm t /\ pend t3 = false /\ cur_col t3 < cols t3 /\ cur_row t3 < rows t3 /\ (exists b, buf_resize (primary_buffer t2) (cols t2) (rows t2) (sc_col e) (sc_row e) = Ok (b, (cur_col t3, cur_row t3)) /\ buf t3 = b) /\ (bcols (primary_buffer t2) = cols t2 -> brows (primary_buffer t2) = rows t2 -> cur_col t3 = sc_col e /\ cur_row t3 = sc_row e) /\ (active t2 = Primary -> cur_col t3 = sc_col e /\ cur_row t3 = sc_row e) /\ sc_col e <= viscol t /\ sc_row e <= cur_row t /\ saved_of t3 Primary = clamp_ctx e (cols t2) (rows t2).
+Print Assumptions C17_round_trip_1049l.
+
+(** a save spelled inside a mode list (flag modes 1, 7, 25 around it) *)
+Theorem C17_save_in_list : forall t ms1 m ms2 t1 os t2 frest t3, TInv t -> Forall quiet_mode ms1 -> Forall quiet_mode ms2 -> m = SaveCursor \/ m = SaveCursorAltScreenBuffer -> execute t (Decset (ms1 ++ m :: ms2)) = Ok t1 -> forallb rop_ok os = true -> rrun os t1 = Ok t2 -> no_save_reset_on (active t) (active t1) os = true -> active t2 = active t -> is_restore frest -> execute t2 frest = Ok t3 -> let e := run_ctx (active t) (active t1) (cols t) (rows t) (spec_saved_now (set_quiet ms1 true t)) os in cur_col t3 = sc_col e /\ cur_row t3 = sc_row e /\ tpen t3 = tpen t /\ org t3 = org t /\ awm t3 = (if has_mode AutoWrap ms1 then true else awm t) /\ pend t3 = false /\ cur_col t3 < cols t3 /\ cur_row t3 < rows t3 /\ cur_col t3 <= viscol t /\ cur_row t3 <= cur_row t.
+Proof. exact C17_roundtrip_run_list. Qed.
+Check C17_save_in_list : forall t ms1 m ms2 t1 os t2 frest t3, TInv t -> Forall quiet_mode ms1 -> Forall quiet_mode ms2 -> m = SaveCursor \/ m = SaveCursorAltScreenBuffer -> execute t (Decset (ms1 ++ m :: ms2)) = Ok t1 -> forallb rop_ok os = true -> rrun os t1 = Ok t2 -> no_save_reset_on (active t) (active t1) os = true -> active t2 = active t -> is_restore frest -> execute t2 frest = Ok t3 -> let e := run_ctx (active t) (active t1) (cols t) (rows t) (spec_saved_now (set_quiet ms1 true t)) os in cur_col t3 = sc_col e /\ cur_row t3 = sc_row e /\ tpen t3 = tpen t /\ org t3 = org t /\ awm t3 = (if has_mode AutoWrap ms1 then true else awm t) /\ pend t3 = false /\ cur_col t3 < cols t3 /\ cur_row t3 < rows t3 /\ cur_col t3 <= viscol t /\ cur_row t3 <= cur_row t.
+Print Assumptions C17_save_in_list.
+
+(** Proofs/C17Run.v: further statements (second statement audit) *)
+(** the saved context of a screen along ANY run of functions and resizes without a save / DECSTR on that screen and without RIS is exactly `run_ctx` (the tracked clamps) *)
+Theorem C17_saved_context_along_runs : forall b s os t1 t2, TInv t1 -> forallb rop_ok os = true -> rrun os t1 = Ok t2 -> safe_run b s (active t1) os = true -> TInv t2 /\ active t2 = run_active (active t1) os /\ (cols t2, rows t2) = run_size (cols t1) (rows t1) os /\ saved_of t2 s = run_ctx s (active t1) (cols t1) (rows t1) (saved_of t1 s) os.
+Proof. exact C17_run_saved. Qed.
+Check C17_saved_context_along_runs : forall b s os t1 t2, TInv t1 -> forallb rop_ok os = true -> rrun os t1 = Ok t2 -> safe_run b s (active t1) os = true -> TInv t2 /\ active t2 = run_active (active t1) os /\ (cols t2, rows t2) = run_size (cols t1) (rows t1) os /\ saved_of t2 s = run_ctx s (active t1) (cols t1) (rows t1) (saved_of t1 s) os.
+Print Assumptions C17_saved_context_along_runs.
+
+(** ?1049l while the primary screen is shown: both contexts untouched, a plain restore *)
+Theorem C17_1049l_on_the_primary : forall t t', TInv t -> active t = Primary -> execute t (Decrst [SaveCursorAltScreenBuffer]) = Ok t' -> active t' = Primary /\ sctx t' = sctx t /\ asctx t' = asctx t /\ cur_col t' = sc_col (sctx t) /\ cur_row t' = sc_row (sctx t) /\ tpen t' = sc_pen (sctx t) /\ org t' = sc_origin (sctx t) /\ awm t' = sc_awm (sctx t) /\ pend t' = false.
+Proof. exact C17_1049l_on_primary. Qed.
+Check C17_1049l_on_the_primary : forall t t', TInv t -> active t = Primary -> execute t (Decrst [SaveCursorAltScreenBuffer]) = Ok t' -> active t' = Primary /\ sctx t' = sctx t /\ asctx t' = asctx t /\ cur_col t' = sc_col (sctx t) /\ cur_row t' = sc_row (sctx t) /\ tpen t' = sc_pen (sctx t) /\ org t' = sc_origin (sctx t) /\ awm t' = sc_awm (sctx t) /\ pend t' = false.
+Print Assumptions C17_1049l_on_the_primary.
+
